@@ -1403,9 +1403,11 @@ fn conc_child(plan: &Plan, dir: &Path) -> Value {
 		if hold && file_used(dir) as f64 > 0.9 * map as f64 {
 			// a resize that falls due while transactions are open is carried out by a background thread
 			// that polls (every 100 ms) for a moment without open transactions: a loop that holds an
-			// iterator almost all the time has to leave it that moment — wait (bounded) for the map to grow
+			// iterator almost all the time has to leave it that moment: pause for three polling periods
+			// (a resize only falls due when a batch is OPENED above the threshold, so there may be
+			// nothing to wait for yet — the next round requests it and the pause after that one lets it run)
 			let t = Instant::now();
-			while t.elapsed() < Duration::from_millis(1500) && map_size(dir).unwrap_or(0) == map {
+			while t.elapsed() < Duration::from_millis(350) && map_size(dir).unwrap_or(0) == map {
 				std::thread::sleep(Duration::from_millis(10));
 			}
 		}
